@@ -826,3 +826,27 @@ def registry_writers(chk, rule, repo, owner_relpath, names, floor=None):
                '; '.join(found[n_][:3]), owner_relpath, key=f'{rule}|writers|{n_}', method=f'who-may-write scan over {nmods} modules (stores, deletes and mutating calls on the name, its aliases and attributes)')
     if nmods < 100:
         raise AnalysisError(f'registry writer scan: only {nmods} modules parsed')
+
+
+
+# ------------------------------------------------------------------------------------------------ a sibling property's rules under this property's name
+class RuleAlias:
+    """Hands a check object to the rule functions of a sibling property: obligations of the selected rules are recorded under `new_rule` (key: new_rule|old key), all
+    others -- and the sibling's floors and assumptions -- are dropped.  `keep(rule, instance)` selects."""
+    def __init__(self, chk, new_rule, keep):
+        self._chk = chk; self._new = new_rule; self._keep = keep; self.count = 0
+
+    def __getattr__(self, name):
+        return getattr(self._chk, name)
+
+    def ob(self, rule, instance, ok, detail='', where='', key=None, method=''):
+        if not self._keep(rule, instance):
+            return ok
+        self.count += 1
+        return self._chk.ob(self._new, f'[{rule}] {instance}', ok, detail, where, key=f'{self._new}|{key if key is not None else rule + "|" + instance}', method=method)
+
+    def floor(self, rule, n): pass
+    def assume(self, text): pass
+
+    def undecide(self, rule, instance, why):
+        if self._keep(rule, instance): self._chk.undecide(self._new, f'[{rule}] {instance}', why)
